@@ -72,3 +72,17 @@ for ntok in (1, 2, 3, 4):
 for v, exp in ((None, '""'), ('abc', '"abc"'), ({'C': 1, 'H': 4}, '"C:1 H:4"'), (('a', 'b'), '"a b"')):
     contract(CTI, P, label='short:%s' % type(v).__name__, args=dict(obj=Const(v)), ensures=['result == %r' % exp],
              cross_check=False)
+
+# ---- the collections handed to the range writer: what a BEP / a phase lists is exactly what was registered with it -----------
+lemma('default-built-BEPs-keep-separate-member-lists', P, forall=dict(), given=[],
+      prove=[('first-bep', "spec.ids.ids_of(spec.ids.two_default_beps()[0].cleavage_reactions) == ['OH_0001'] and "
+                           "spec.ids.ids_of(spec.ids.two_default_beps()[0].synthesis_reactions) == ['OH_0003']"),
+             ('second-bep', "spec.ids.ids_of(spec.ids.two_default_beps()[1].cleavage_reactions) == ['CH_0007'] and "
+                            "spec.ids.ids_of(spec.ids.two_default_beps()[1].synthesis_reactions) == []"),
+             ('written-range-of-the-second',
+              "pm.cantera._get_omkm_range(spec.ids.two_default_beps()[1].cleavage_reactions, format='list') == ['\"CH_0007\"']")])
+for ids in ([None, None, None], ['r_0001', None, None, 'r_0004'], ['a_1', 'a_1', 'b_2'], [None]):
+    n = len(ids)
+    lemma('every-reaction-is-listed-once-for-each-of-its-phases%r' % (ids,), P, forall=dict(), given=[],
+          prove=[('all-positions-in-order', "spec.ids.phases_of_reactions(%r) == {'gas': %r, 'terrace': %r}"
+                  % (ids, list(range(n)), list(range(n))))])
